@@ -41,6 +41,20 @@ the oracle's direct recomputation does NOT (a value under `Intensity E2` that st
 cases are counted as `mixed_layout_spill` and judged by the oracle only when known_findings.json registers the
 predicate `kf_mixed_layout_spill` (candidate known finding, notes/C12.md last addendum).
 
+DEFAULT quantification options (MaxLFQ generator enabled) and remapping (round 6, notes/C12.md last addendum):
+about half of the in-process cases with one SILAC / reporter layout build the real writer with `skip_lfq=False`
+(`case["lfq"]`), so `columns.LFQIntensityColumns` runs between the summed-intensity generator and the coverage /
+reporter / evidence-id generators ON THE SAME per-group precursor list; half of the subprocess command lines omit
+`--skip_lfq`.  LFQ values are never compared (C11); compared are the C12 cells, the header list (the model's list then
+contains the `LFQ Intensity …` names, `C12.writerHeaders false`), the flat `extraColumns` of every row against the
+model's column pipeline (`C12.runCells`, cells of foreign generators masked), and `pgr.precursorQuants` AFTER the
+writer ran.  ~30 % of the in-process cases run a REMAPPING method (`ProteinScoringStrategy("bestPEP")` + digest maps,
+`case["remap"]`): the `Leading proteins` cell is ignored, the protein list is the map's list of
+`helpers.remove_modifications(modified sequence)`; the rows carry 0-4 modifications in every notation the parsers
+accept (`M(ox)`, `(ac)M…`, `M(Oxidation (M))`, `[Oxidation (M)]`, `[+15.995]`, mixed), the pool of bare peptides
+contains the remainders a too greedy stripping would leave (`AAAM(ox)PEPTM(ox)DEK` -> `AAAMDEK`).  The model strips with
+`C10.removeMods`, the oracle with its own bracket-depth scanner `o_strip` (not the repository's helper).
+
 Numbers: intensities are small dyadic rationals (integers and halves), PEPs are k/1024, so every
 float sum the code performs is exact; iBAQ quotients are compared after one correctly rounded
 division of the model's exact rational.  A case whose running PEP mean rounds onto the FDR level
@@ -61,6 +75,83 @@ from lib import Prop, rat, unrat, rat_to_float
 PEPTIDES = ["AAAAAAK", "CCCCCCR", "DDDDDDK", "EEEEEEK", "GGGGGGR", "HHHHHHK", "AAAAAAK(ox)", "LLLLLLR"]
 BASE = ["A1", "B2", "C3", "D4", "E5", "F6"]
 SILAC_NAMES = {2: ["L", "H"], 3: ["L", "M", "H"], 1: ["L"]}
+
+
+# bare peptides of the remapping cases; the pool contains what a too greedy / too lazy stripping of a multiply modified
+# spelling leaves behind (AAAM(ox)PEPTM(ox)DEK -> AAAMDEK, M(ox)AAM(ox)K -> MK, DDM(ox)AAAAM(ox)PEPTIDEK -> DDMPEPTIDEK)
+MOD_BARE = ["AAAMPEPTMDEK", "AAAMDEK", "MAAMK", "MK", "DDMAAAAMPEPTIDEK", "DDMPEPTIDEK", "MSTYAAMK", "MAAMSK", "SK",
+            "SAAMK", "AAAAAAK", "CCCCCCR", "MAAMPEPTMDEK", "AAAMPEPTMDEKK"]
+MOD_TOKENS = {
+    "short": {"ox": "(ox)", "ac": "(ac)", "ph": "(ph)", "other": "(de)"},
+    "long": {"ox": "(Oxidation (M))", "ac": "(Acetyl (Protein N-term))", "ph": "(Phospho (STY))", "other": "(Deamidation (NQ))"},
+    "bracket": {"ox": "[Oxidation (M)]", "ac": "[Acetyl (Protein N-term)]", "ph": "[Phospho (STY)]", "other": "[Deamidation (NQ)]"},
+    "bracket_plain": {"ox": "[+15.995]", "ac": "[+42.011]", "ph": "[+79.966]", "other": "[UNIMOD:7]"},
+}
+
+
+def spell(rng, bare, nmods, style):
+    """a modified sequence spelling `bare` with `nmods` modification tokens (well formed: balanced, at most one level
+    of nesting): N-terminal acetylation, oxidation after M, phosphorylation after S/T/Y, anything after any residue"""
+    sites = [(0, "ac")] + [(i + 1, "ox" if c == "M" else "ph" if c in "STY" else "other") for i, c in enumerate(bare)]
+    pref = [s for s in sites if s[1] != "other"]
+    rng.shuffle(pref)
+    rest = [s for s in sites if s[1] == "other"]
+    rng.shuffle(rest)
+    chosen = dict((pref + rest)[:nmods])
+    out = []
+    for i in range(len(bare) + 1):
+        if i in chosen:
+            st = style if style != "mixed" else rng.choice(sorted(MOD_TOKENS))
+            out.append(MOD_TOKENS[st][chosen[i]])
+        if i < len(bare):
+            out.append(bare[i])
+    return "".join(out)
+
+
+def o_strip(s):
+    """the oracle's own reading of "modified sequence with the modifications removed": the characters outside every
+    ( … ) / [ … ] token (bracket-depth scanner; None for an unbalanced string, on which the oracle does not decide)"""
+    out, depth = [], 0
+    for ch in s:
+        if ch in "([":
+            depth += 1
+        elif ch in ")]":
+            depth -= 1
+            if depth < 0:
+                return None
+        elif depth == 0:
+            out.append(ch)
+    return "".join(out) if depth == 0 else None
+
+
+def n_mods(s):
+    """number of top-level modification tokens of a well-formed spelling"""
+    n = depth = 0
+    for ch in s:
+        if ch in "([":
+            n += depth == 0
+            depth += 1
+        elif ch in ")]":
+            depth -= 1
+    return n
+
+
+def case_maps(case, fi):
+    """the digest map (dict) of the fi-th evidence file of a remapping case: a single map serves all files"""
+    maps = case["remap"]["maps"]
+    m = maps[0] if len(maps) == 1 else maps[fi]
+    return {k: v for k, v in m}
+
+
+def o_leading(case, fi, r):
+    """the protein list the mapper works on: `Leading proteins` of the row, or - remapping method - the digest map's
+    list of the stripped modified sequence (None: the oracle does not decide, unbalanced spelling)"""
+    if not case.get("remap"):
+        return r["prot"]
+    bare = o_strip(r["pep"])
+    if bare is None:
+        return None
+    return list(case_maps(case, fi).get(bare, []))
 
 
 def F(x):
@@ -382,8 +473,11 @@ def recompute(case):
     if design is not None and "err" in design:
         return design
     parsed = []
-    for r in all_rows(case):
-        ps = o_proteins(r["prot"])
+    for fi, r in ((fi, r) for fi, rows in enumerate(case["files"]) for r in rows):
+        lead = o_leading(case, fi, r)
+        if lead is None:
+            return {"undecided": "unbalanced modification tokens in %r" % r["pep"]}
+        ps = o_proteins(lead)
         if ps:
             if design is not None:
                 # experiment and fraction of the row's raw file in the design; a raw file without a line is an error
@@ -509,6 +603,31 @@ def spill_registered():
         return False
 
 
+def fill_foreign_cells(view, impl_out):
+    """the model's column pipeline (`cells`: extraColumns of every written row in the writer's order) made comparable
+    with the raw cells of the implementation: `;`-joined cells as text, float cells as the correctly rounded double, and
+    the cells of the generators C12 does not speak about (annotation, MaxLFQ, sequence coverage: `null` in the model)
+    taken over from the implementation's row when the two rows have the same length"""
+    if not isinstance(view, dict) or "cells" not in view:
+        return view
+    icells = impl_out.get("cells") if isinstance(impl_out, dict) else None
+    out = []
+    for gi, row in enumerate(view["cells"]):
+        irow = icells[gi] if isinstance(icells, list) and gi < len(icells) and len(icells[gi]) == len(row) else None
+        new = []
+        for ci, c in enumerate(row):
+            if c is None:
+                new.append(irow[ci] if irow is not None else None)
+            elif isinstance(c, dict):
+                new.append(";".join(str(x) for x in c["join"]))
+            elif isinstance(c, list):
+                new.append(rat(rat_to_float(c)))
+            else:
+                new.append(c)
+        out.append(new)
+    return dict(view, cells=out)
+
+
 def round_quotients(view):
     """model / oracle values -> what the implementation can hold: iBAQ quotients become the
     correctly rounded double (one true division); sums stay exact"""
@@ -566,7 +685,8 @@ def fmt0(fr):
 # ----------------------------------------------------------------------------------------
 # end-to-end CLI cases (extra stage): written proteinGroups.txt columns, formatted with '%.0f'
 # ----------------------------------------------------------------------------------------
-CLI_PEPTIDES = ["AAAAAAK", "CCCCCCR", "DDDDDDK", "EEEEEEK", "GGGGGGR", "HHHHHHK", "LLLLLLR", "NNNNNNK"]
+CLI_PEPTIDES = ["AAAAAAK", "CCCCCCR", "DDDDDDK", "EEEEEEK", "GGGGGGR", "HHHHHHK", "LLLLLLR", "NNNNNNK",
+                "AAAMPEPTMDEK", "AAAMDEK", "MSTYAAMK", "DDMAAAAMPEPTIDEK", "DDMPEPTIDEK"]
 PG_HEADERS = [
     "Protein IDs", "Majority protein IDs", "Peptide counts (unique)", "Best peptide", "Number of proteins",
     "Q-value", "Score", "Reverse", "Potential contaminant",
@@ -575,11 +695,12 @@ UNMODELLED = {"Protein names", "Gene names", "Fasta headers"}
 
 
 def clean_peptide(p):
-    return p.replace("(ox)", "")
+    return o_strip(p)
 
 
 def is_unmodelled_header(h):
-    return h in PG_HEADERS or h in UNMODELLED or "equence coverage [%]" in h
+    # `LFQ Intensity …`: the MaxLFQ cells of runs with the default options are not compared (property C11)
+    return h in PG_HEADERS or h in UNMODELLED or "equence coverage [%]" in h or h.startswith("LFQ Intensity ")
 
 
 def fmt_cell(x):
@@ -643,7 +764,9 @@ def run_cli(case):
             evs.append(p)
         out = os.path.join(tmp, "out.txt")
         level = rat_to_float(case["level"])
-        tail = ["--protein_groups_out", out, "--fasta", fasta, "--psm_fdr_cutoff", repr(level), "--skip_lfq"]
+        tail = ["--protein_groups_out", out, "--fasta", fasta, "--psm_fdr_cutoff", repr(level)]
+        if not case.get("lfq"):  # case["lfq"]: the DEFAULT options, MaxLFQ enabled
+            tail.append("--skip_lfq")
         if case.get("design"):
             dpath = os.path.join(tmp, "experimentalDesignTemplate.txt")
             render_design(dpath, case["design"])
@@ -710,8 +833,10 @@ def cli_abstract(case, impl_out):
             "design": case.get("design")}
 
 
-def gen_cli_case(rng, flow, with_design=False):
-    case = _gen_cli_case(rng, flow)
+def gen_cli_case(rng, flow, with_design=False, lfq=False):
+    case = _gen_cli_case(rng, flow, lfq)
+    if lfq:
+        case["lfq"] = True
     if with_design:
         # --experimental_design_file (the only layout the command line can use, see notes/C12.md): 2-4 raw files, the
         # experiments in NON-alphabetical design order
@@ -729,7 +854,7 @@ def gen_cli_case(rng, flow, with_design=False):
     return case
 
 
-def _gen_cli_case(rng, flow):
+def _gen_cli_case(rng, flow, lfq=False):
     nprot = rng.choice([3, 4, 5])
     names = ["P%d" % (i + 1) for i in range(nprot)]
     seqs = {}
@@ -743,17 +868,22 @@ def _gen_cli_case(rng, flow):
         "has_fraction": rng.random() < 0.5,
     }
     exps = rng.sample(["E1", "E2", "E10"], rng.choice([1, 2, 3]))
+    if lfq:  # the MaxLFQ generator is valid with >= 2 experiments and without reporter channels
+        layout["tmt"] = 0
+        exps = rng.sample(["E1", "E2", "E10"], rng.choice([2, 3]))
     rows = []
     for i in range(rng.choice([10, 14, 18, 22])):
         pep = rng.choice(CLI_PEPTIDES + ["WWWWWWK"])
-        if rng.random() < 0.2:
-            pep += "(ox)"
+        if rng.random() < 0.45:  # 1-3 modification tokens in any notation (the CLI remaps through the stripped sequence)
+            pep = spell(rng, pep, rng.choice([1, 2, 2, 3]), rng.choice(["short", "long", "bracket", "bracket_plain", "mixed"]))
         if rows and rng.random() < 0.35:
             pep = rng.choice(rows)["pep"]
         r = rng.random()
         pp = "nan" if r < 0.25 else rat(Fraction(rng.randint(0, 12 if r < 0.9 else 1024), 1024))
         r = rng.random()
         inten = None if r < 0.05 else "empty" if r < 0.1 else rat(Fraction(2 * rng.randint(0, 3000) + rng.choice([0, 0, 1]), 2))
+        if lfq and rng.random() < 0.2:  # identified rows without an MS1 intensity
+            inten = rng.choice([None, "empty", rat(0)])
         rows.append(
             {
                 "id": i,
@@ -772,7 +902,9 @@ def _gen_cli_case(rng, flow):
         "cli": flow,
         "fasta": fasta,
         "files": [rows],
-        "level": rat(rng.choice([0.01, 0.01, 0.05, 0.002])),
+        # mostly NOT the default 0.01 (= the default of --protein_group_fdr_threshold): a command line that hands the
+        # wrong threshold to the writer is visible only when the two differ; 0.002 lies inside the running PEP means
+        "level": rat(rng.choice([0.01, 0.05, 0.002, 0.002, 0.004])),
         "layout": layout,
     }
     if flow == "quant":
@@ -810,7 +942,13 @@ class P(Prop):
         "optional Condition, or the headerless file list with 2-4 columns): 1-5 raw files (plain, with extension, with "
         "directories) over 1-4 of 10 experiment names, design order not alphabetical in ~75 % of the multi-experiment designs, "
         "experiments without rows, empty Experiment / Fraction cells, rarely an unlisted raw file, a repeated name, a design "
-        "without lines; non-trivial = at least one group keeps a used precursor and at least one "
+        "without lines; about half of the single-layout cases build the writer with the DEFAULT options (skip_lfq=False: the "
+        "MaxLFQ generator runs between the C12 generators on the same precursor lists; mostly >= 2 experiments and no reporter "
+        "channels so that it is valid; a quarter of their rows are identified rows with an empty / 0 / NaN Intensity cell); "
+        "~30 % of the cases run a REMAPPING method with 1 or one-per-file digest maps over 3-8 of 14 bare peptides (the pool "
+        "holds the remainders of a too greedy stripping), rows spelled with 0-4 modification tokens in the notations (ox) / "
+        "(Oxidation (M)) / [Oxidation (M)] / [+15.995] / mixed, N-terminal tokens included, the Leading proteins cell "
+        "unrelated; non-trivial = at least one group keeps a used precursor and at least one "
         "row is left out; distinct by sha1 of the case"
     )
     assumptions = [
@@ -818,6 +956,12 @@ class P(Prop):
         "for the non-dyadic PEP clusters a running mean of >= 2 values within 2^-40 (relative) of the level is a near tie (skipped, counted)",
         "csv/float parsing of the rendered evidence fields returns the rendered doubles (repr round trip)",
         "only discard_shared_peptides=True (hard-coded in do_quantification) is modelled",
+        "runs with the MaxLFQ generator enabled: the LFQ cells themselves are not compared (property C11); compared are the C12 "
+        "cells, the header list incl. the LFQ names, the positions of all cells in extraColumns and pgr.precursorQuants after "
+        "the writer ran; sets of files with different SILAC / reporter layouts are run with skip_lfq only",
+        "remapping cases: generated modified sequences are well formed (balanced ( ) [ ], at most one level of nesting); the "
+        "oracle strips them with its own bracket-depth scanner and does not decide on unbalanced strings (none generated); "
+        "digest maps are plain dicts without repeated keys",
         "evidence files with different SILAC / reporter columns: the implementation's IndexError in _get_intensities and "
         "ValueError (broadcast) / TypeError in _get_tmt_intensities are EXPECTED exceptions (enums silac_index_out_of_range, "
         "tmt_shape_mismatch), recognised by the raising function's name; where no exception occurs and values land in other "
@@ -830,6 +974,9 @@ class P(Prop):
     trusted_extra = [
         "rendering of abstract evidence rows to evidence.txt in harness/props/C12.py (the parser's column picking, '' -> 0.0 / NaN conventions are restated there)",
         "C17 model PgFdr.C17.cutoff reused for the PEP cutoff (tied to fdr.calc_post_err_prob_cutoff by the C17 check)",
+        "C10 model PgFdr.C10.removeMods / digestLookup / sourceProteins reused for the remapping of evidence rows (tied to "
+        "helpers.remove_modifications and the mapper by the C10 check, and here by the remapping cases); C13 model of "
+        "is_valid / header generators (C13.Gen) reused for the column pipeline and the header list with MaxLFQ",
     ]
 
     # -- generation -------------------------------------------------------------------
@@ -886,28 +1033,49 @@ class P(Prop):
             if rng.random() < 0.6 and layout["has_experiment"]:
                 # room for values to land in a later experiment
                 exps = rng.sample(["E1", "E2", "E10", "b", "B"], max(len(exps), rng.choice([3, 4, 5])))
+        # ~50 % of the single-layout cases: the writer with the DEFAULT options, i.e. the MaxLFQ generator runs between the
+        # C12 generators on the same per-group precursor list (valid with >= 2 experiments and no reporter channels)
+        lfq = layouts is None and rng.random() < 0.5
+        if lfq and rng.random() < 0.75:
+            layout["tmt"] = 0
+            if layout["has_experiment"] and len(exps) < 2:
+                exps = rng.sample(["E1", "E2", "E10", "b", "B"], rng.choice([2, 2, 3]))
+        # ~30 %: a REMAPPING method - the protein list of a row is the digest map's list of the stripped modified sequence
+        remap_pool = rng.sample(MOD_BARE, rng.choice([3, 4, 6, 8])) if rng.random() < 0.3 else None
+        spelled = remap_pool is not None or rng.random() < 0.15  # modification tokens also without remapping
+        styles = ["short", "short", "long", "bracket", "bracket_plain", "mixed"]
+
+        def draw_prot():
+            t = rng.random()
+            if groups and t < 0.55:  # unique: proteins of one group
+                g = rng.choice(groups)
+                prot = rng.sample(g, rng.randint(1, len(g)))
+                if rng.random() < 0.15 and not o_is_decoy(prot):  # a decoy protein listed with targets is dropped
+                    prot.insert(rng.randint(0, len(prot)), decoy_pref + rng.choice(base))
+            elif len(groups) >= 2 and t < 0.75:  # shared between two groups
+                g1, g2 = rng.sample(groups, 2)
+                prot = [rng.choice(g1), rng.choice(g2)]
+            elif t < 0.88 and reported:  # partly unknown
+                prot = [rng.choice(reported), rng.choice(unknown)]
+                rng.shuffle(prot)
+            elif t < 0.95:  # unknown only
+                prot = [rng.choice(unknown)]
+            else:  # mixed decoy prefixes: not a decoy list, every member removed -> row dropped by the parser
+                prot = ["REV__" + rng.choice(base), "rev_" + rng.choice(base)]
+            return prot
+
+        maps = None
+        if remap_pool is not None:
+            # one digest map for all files, or one per file (`parse_evidence_file_multiple` zips files and maps)
+            maps = [[[b, draw_prot()] for b in remap_pool if rng.random() < 0.88]
+                    for _ in range(nfiles if (nfiles > 1 and rng.random() < 0.5) else 1)]
         files = []
         next_id = 0
         for fi in range(nfiles):
             rows = []
             flay = dict(layout, **layouts[fi]) if layouts else layout
             for _ in range(rng.choice([0, 1, 2, 3, 4, 5, 6, 7, 8, 10, 14]) // nfiles + (1 if rng.random() < 0.5 else 0)):
-                t = rng.random()
-                if groups and t < 0.55:  # unique: proteins of one group
-                    g = rng.choice(groups)
-                    prot = rng.sample(g, rng.randint(1, len(g)))
-                    if rng.random() < 0.15 and not o_is_decoy(prot):  # a decoy protein listed with targets is dropped
-                        prot.insert(rng.randint(0, len(prot)), decoy_pref + rng.choice(base))
-                elif len(groups) >= 2 and t < 0.75:  # shared between two groups
-                    g1, g2 = rng.sample(groups, 2)
-                    prot = [rng.choice(g1), rng.choice(g2)]
-                elif t < 0.88 and reported:  # partly unknown
-                    prot = [rng.choice(reported), rng.choice(unknown)]
-                    rng.shuffle(prot)
-                elif t < 0.95:  # unknown only
-                    prot = [rng.choice(unknown)]
-                else:  # mixed decoy prefixes: not a decoy list, every member removed -> row dropped by the parser
-                    prot = ["REV__" + rng.choice(base), "rev_" + rng.choice(base)]
+                prot = draw_prot()
                 r = rng.random()
                 if r < 0.22:
                     pp = "nan"
@@ -928,9 +1096,18 @@ class P(Prop):
                     inten = rat(Fraction(2 * rng.randint(0, 2000) + 1, 2))
                 else:
                     inten = rat(Fraction(rng.randint(0, 10**rng.choice([2, 3, 6]))))
+                if lfq and rng.random() < 0.25:
+                    # MaxQuant "MSMS" type rows: identified, no MS1 feature (empty / 0 / NaN Intensity cell)
+                    inten = rng.choice([None, "empty", rat(0)])
+                pep = rng.choice(PEPTIDES[: rng.choice([2, 4, 8])])
+                if remap_pool is not None:
+                    bare = rng.choice(remap_pool) if rng.random() < 0.93 else "WWWWWWK"
+                    pep = spell(rng, bare, rng.choice([0, 1, 2, 2, 3, 4]), rng.choice(styles))
+                elif spelled and rng.random() < 0.6:
+                    pep = spell(rng, rng.choice(MOD_BARE[:6]), rng.choice([1, 2, 2, 3]), rng.choice(styles))
                 row = {
                     "id": next_id if rng.random() < 0.9 else rng.randint(0, 30),
-                    "pep": rng.choice(PEPTIDES[: rng.choice([2, 4, 8])]),
+                    "pep": pep,
                     "z": rng.choice([2, 2, 3]),
                     "exp": rng.choice(exps),
                     "frac": str(rng.choice([1, 2, 3])) if layout["has_fraction"] else "-1",
@@ -954,8 +1131,14 @@ class P(Prop):
                 next_id += 1
                 rows.append(row)
             files.append(rows)
+        extra_keys = {}
+        if lfq:
+            extra_keys["lfq"] = True
+            extra_keys["lfq_min"] = rng.choice([1, 2, 2])
+        if maps is not None:
+            extra_keys["remap"] = {"maps": maps}
         # FDR level
-        rec = recompute({"files": files, "groups": groups, "level": rat(0), "ibaq": []})
+        rec = recompute(dict({"files": files, "groups": groups, "level": rat(0), "ibaq": []}, **extra_keys))
         fin = sorted(unrat(p) for p in rec.get("peps", []) if not isinstance(p, str))
         means = [sum(fin[: k + 1], Fraction(0)) / (k + 1) for k in range(len(fin))]
         r = rng.random()
@@ -969,7 +1152,7 @@ class P(Prop):
         else:
             level = rng.choice([0.0, 0.001, 0.01, 0.01, 0.05, 0.1, 0.25, 1.0])
         ibaq = [[p, rng.choice([0, 0, 1, 2, 3, 7, 12])] for p in sorted(set(reported)) if rng.random() < 0.8]
-        case = {"files": files, "groups": groups, "level": rat(level), "ibaq": ibaq, "layout": layout}
+        case = dict({"files": files, "groups": groups, "level": rat(level), "ibaq": ibaq, "layout": layout}, **extra_keys)
         if layouts:
             case["layouts"] = layouts
         if rng.random() < 0.35:
@@ -1057,12 +1240,18 @@ class P(Prop):
                 ]
             )
             protein_groups = ProteinGroups.from_protein_group_results(pgrs)
-            score_type = ProteinScoringStrategy("no_remap bestPEP")
+            # a remapping method (what `python -m picked_group_fdr.quantification --fasta …` and the default methods of
+            # `--do_quant` use): the protein list comes from the digest map of the file's position
+            remap = case.get("remap")
+            score_type = ProteinScoringStrategy("bestPEP" if remap else "no_remap bestPEP")
+            pp_maps = [dict((k, list(v)) for k, v in m) for m in remap["maps"]] if remap else [None]
             ibaq = collections.defaultdict(int)
             for p, n in case["ibaq"]:
                 ibaq[p] = n
+            # case["lfq"]: the DEFAULT options of both command lines (skip_lfq=False, --lfq_min_peptide_ratios 2,
+            # stabilisation and FastLFQ on, one thread): the MaxLFQ generator runs between the C12 generators
             writer = writers.MaxQuantProteinGroupsWriter(
-                ibaq, {}, {}, True, 2, True, True, 1, {"groups": [], "groupLabels": []}, 0.01
+                ibaq, {}, {}, not case.get("lfq"), case.get("lfq_min", 2), True, True, 1, {"groups": [], "groupLabels": []}, 0.01
             )
             level = rat_to_float(case["level"])
             experimental_design = None
@@ -1079,7 +1268,7 @@ class P(Prop):
                 )
             try:
                 pgrs, post_err_probs = score_type.get_quantification_parser()(
-                    paths, paths, protein_groups, pgrs, [None], experimental_design, True,
+                    paths, paths, protein_groups, pgrs, pp_maps, experimental_design, True,
                     score_type=score_type, suppress_missing_peptide_warning=True,
                 )
             except KeyError as e:
@@ -1123,7 +1312,11 @@ class P(Prop):
                 return bool(tb) and tb[-1].name == func
 
             try:
-                writer.append_quant_columns(pgrs, post_err_probs, level)
+                import warnings
+
+                with warnings.catch_warnings(), np.errstate(all="ignore"):
+                    warnings.simplefilter("ignore")  # MaxLFQ: log / division of empty ratio sets
+                    writer.append_quant_columns(pgrs, post_err_probs, level)
             except IndexError as e:
                 # rows with more SILAC values than the first parsed row has: `intensities[e*(1+S)+k+1] += …` beyond the list
                 if raised_in(e, "_get_intensities") and "list index out of range" in str(e):
@@ -1159,6 +1352,7 @@ class P(Prop):
             nbase = len(writers.PROTEIN_GROUP_HEADERS)
             extra_headers = pgrs.headers[nbase:]
             groups = []
+            all_cells = []
             for pgr in pgrs:
                 if len(pgr.extraColumns) != len(extra_headers):
                     return {"err": "ragged", "headers": len(extra_headers), "values": len(pgr.extraColumns)}
@@ -1179,6 +1373,7 @@ class P(Prop):
                                 tmt.append(col[kind + str(i) + " " + e])
                 ev = col["Evidence IDs"]
                 npeps = col["Number of theoretical peptides iBAQ"]
+                all_cells.append([self._cell(v) for v in pgr.extraColumns])
                 groups.append(
                     {
                         "ids": pgr.proteinIds.split(";"),
@@ -1208,9 +1403,26 @@ class P(Prop):
                 # CliQuant.quantHeaders, the list the Lean theorems `cells_under_named_headers` /
                 # `design_cells_under_named_headers` locate the per-experiment cells in
                 "headers": [str(h) for h in pgrs.headers],
+                # `extraColumns` of every written row as they are, in the writer's own order (no header lookup): compared
+                # with the model's column pipeline C12.runCells, the cells of generators outside C12 masked
+                "cells": all_cells,
             }
         finally:
             shutil.rmtree(tmp, ignore_errors=True)
+
+    @staticmethod
+    def _cell(v):
+        """a raw cell of extraColumns -> protocol value"""
+        import numpy as np
+
+        if isinstance(v, (bool, np.bool_)):
+            return bool(v)
+        if isinstance(v, (int, np.integer)):
+            return int(v)
+        if isinstance(v, (float, np.floating)):
+            v = float(v)
+            return "nan" if v != v else ("inf" if v in (float("inf"), float("-inf")) else rat(v))
+        return str(v)
 
     @staticmethod
     def _pq(q):
@@ -1248,12 +1460,19 @@ class P(Prop):
         }
         if case.get("design"):
             req["design"] = normalise_design(case["design"])
+        if not case.get("cli"):
+            req["files"] = [len(rows) for rows in case["files"]]
+            req["skipLfq"] = not case.get("lfq")
+            if case.get("remap"):
+                req["remap"] = True
+                req["maps"] = case["remap"]["maps"]
         return req
 
     def model_view(self, case, resp, impl_out):
         if case.get("cli"):
+            resp = {k: v for k, v in resp.items() if k != "cells"} if isinstance(resp, dict) else resp
             return table_from_view(round_quotients(resp))
-        return with_cutoff_obs(round_quotients(resp))
+        return with_cutoff_obs(round_quotients(fill_foreign_cells(resp, impl_out)))
 
     def impl_view(self, case, impl_out):
         if isinstance(impl_out, dict) and "_rec" in impl_out:
@@ -1278,6 +1497,8 @@ class P(Prop):
         if self._near_tie(case):
             return None
         rec = recompute(case)
+        if "undecided" in rec:
+            return None
         if rec.get("_spill") and not spill_registered():
             # values of rows with more SILAC / other reporter columns than the first parsed row land in columns they do
             # not belong to, without an exception: the direct recomputation below differs from the code (and the model,
@@ -1301,6 +1522,7 @@ class P(Prop):
             want["cutoffDouble"] = impl_out["cutoffDouble"]
         if "headers" in impl_out and "groups" in want:
             want["headers"] = impl_out["headers"]  # header strings are part of the correspondence (model view) only
+            want["cells"] = impl_out.get("cells")  # the flat cell order too (the oracle reads every cell by header name)
         d = first_diff(want, impl_out, "out")
         if d:
             return "recomputation from the evidence rows differs (expected vs implementation) at " + d
@@ -1343,6 +1565,27 @@ class P(Prop):
         f.append("silac=%d" % lay["silac"])
         f.append("tmt=%d" % lay["tmt"])
         f.append("files=%d" % len(case["files"]))
+        f.append("writer=" + ("default_options(MaxLFQ_on)" if case.get("lfq") else "skip_lfq"))
+        if case.get("lfq") and isinstance(impl_out, dict) and any(h.startswith("LFQ Intensity ") for h in impl_out.get("headers", [])):
+            f.append("lfq_column_ran")
+            if any(q[4] in (None, ["0", "1"]) and q[5] != "nan" for g in impl_out.get("groups", []) for q in g["quants"]):
+                f.append("lfq_column_ran:identified_row_without_intensity")
+        f.append("method=" + ("remap(%d maps)" % len(case["remap"]["maps"]) if case.get("remap") else "no_remap"))
+        mods = [n_mods(r["pep"]) for r in all_rows(case)]
+        if any(m >= 2 for m in mods):
+            f.append("row_with_2+_modifications" + ("(remapped)" if case.get("remap") else ""))
+        if case.get("remap"):
+            for r in all_rows(case):
+                if n_mods(r["pep"]) >= 2:
+                    if "(" in r["pep"] and "[" in r["pep"]:
+                        f.append("notation=mixed")
+                    elif " (" in r["pep"] and r["pep"].count("(") >= 2 and "[" not in r["pep"]:
+                        f.append("notation=(Name (X))")
+                    elif "[" in r["pep"]:
+                        f.append("notation=[…]")
+                    else:
+                        f.append("notation=(xx)")
+            f = sorted(set(f), key=f.index)
         if mixed_layouts(case):
             f.append("mixed_layouts")
             f.append("mixed_layouts:first_file_silac=%d" % file_layout(case, 0)["silac"])
@@ -1404,9 +1647,10 @@ class P(Prop):
         rng = random.Random(977 * int(ctx["seed"]) + 12)
         flows = ["quant", "quant", "quant", "quant", "main", "main"]
         designs = [True, False, True, False, True, False]  # half of the runs of either command with --experimental_design_file
+        lfqs = [True, True, False, False, True, False]  # half of the runs of either command with the DEFAULT options (MaxLFQ on)
         if ctx["tier"] == "thorough":
-            flows, designs = flows * 6, designs * 6
-        cases = [gen_cli_case(rng, f, wd) for f, wd in zip(flows, designs)]
+            flows, designs, lfqs = flows * 6, designs * 6, lfqs * 6
+        cases = [gen_cli_case(rng, f, wd, lq) for f, wd, lq in zip(flows, designs, lfqs)]
         recs = lib.evaluate_cases(self, cases, ctx["model"])
         failures = []
         ok = 0
@@ -1423,6 +1667,8 @@ class P(Prop):
                 "cli_runs_equal": ok,
                 "flows": {f: flows.count(f) for f in set(flows)},
                 "with_experimental_design_file": sum(1 for c in cases if c.get("design")),
+                "with_default_options_maxlfq_on": sum(1 for c in cases if c.get("lfq")),
+                "rows_with_two_or_more_modifications": sum(1 for c in cases for r in all_rows(c) if n_mods(r["pep"]) >= 2),
                 "compared": "every quantification column of the written proteinGroups.txt (counts, id types, "
                 "Intensity / iBAQ incl. SILAC, theoretical peptide numbers, TMT reporter sums, evidence ids) with the "
                 "model's values formatted by '%.0f' (half-even on the double), and with the Fraction recomputation",
@@ -1437,9 +1683,14 @@ class P(Prop):
             return
         files = case["files"]
         lays = case.get("layouts")
+        if case.get("lfq"):
+            yield {k: v for k, v in case.items() if k not in ("lfq", "lfq_min")}
+        rm = case.get("remap")
         for fi, rows in enumerate(files):
             if len(files) > 1:
                 c = dict(case, files=files[:fi] + files[fi + 1 :])
+                if rm and len(rm["maps"]) > 1:
+                    c["remap"] = {"maps": rm["maps"][:fi] + rm["maps"][fi + 1 :]}
                 if lays:
                     c["layouts"] = lays[:fi] + lays[fi + 1 :]
                     if fi == 0:
@@ -1474,6 +1725,18 @@ class P(Prop):
                 yield dict(case, layout=dict(lay, silac=0), files=[[dict(r, silac=[]) for r in rows] for rows in files])
         if case["ibaq"]:
             yield dict(case, ibaq=[])
+        if rm:
+            for mi, m in enumerate(rm["maps"]):
+                for k in range(len(m)):  # a map entry less
+                    yield dict(case, remap={"maps": rm["maps"][:mi] + [m[:k] + m[k + 1 :]] + rm["maps"][mi + 1 :]})
+                for k, (b, ps) in enumerate(m):  # a protein less in an entry
+                    if len(ps) > 1:
+                        for j in range(len(ps)):
+                            yield dict(case, remap={"maps": rm["maps"][:mi] + [m[:k] + [[b, ps[:j] + ps[j + 1 :]]] + m[k + 1 :]] + rm["maps"][mi + 1 :]})
+            for fi, rows in enumerate(files):
+                for i, r in enumerate(rows):
+                    if r["prot"] != ["X"]:  # the Leading proteins cell is ignored by a remapping method
+                        yield dict(case, files=files[:fi] + [rows[:i] + [dict(r, prot=["X"])] + rows[i + 1 :]] + files[fi + 1 :])
         for fi, rows in enumerate(files):
             for i, r in enumerate(rows):
                 if len(r["prot"]) > 1:
